@@ -8,6 +8,7 @@ mod c06;
 mod c13;
 mod c14;
 mod c18;
+mod c19;
 mod c20;
 mod common;
 mod corpus;
@@ -48,6 +49,10 @@ macro_rules! dispatch {
             }
             "C18" => {
                 let $p = c18::C18;
+                $body
+            }
+            "C19" => {
+                let $p = c19::C19;
                 $body
             }
             "C20" => {
@@ -116,6 +121,9 @@ fn main() {
         }
         "c05child" => {
             std::process::exit(c05::child_main(&args[2..]));
+        }
+        "c19exec" => {
+            std::process::exit(c19::exec_main());
         }
         "c05exec" => {
             std::process::exit(c05::exec_main(&args[2]));
